@@ -180,10 +180,13 @@ const (
 	// inserted together, the extras are removed one by one (ranges merge back, possibly several levels at once), and
 	// only then are the remaining ids added one by one (ranges divide again next to the merged ones)
 	modeChurn = 3
-	nModes    = 4
+	// modeGhost: filled in one call, then RemoveId is called for ids the index never held (callers ignore its error),
+	// as many times as it holds elements
+	modeGhost = 4
+	nModes    = 5
 )
 
-var modeNames = [nModes]string{"fresh", "update", "remove", "churn"}
+var modeNames = [nModes]string{"fresh", "update", "remove", "churn", "ghost"}
 
 func sortedIds(m map[string]string) []string {
 	ids := make([]string, 0, len(m))
@@ -230,6 +233,20 @@ func buildIndex(p param, contents map[string]string, mode int, extras []string) 
 		d.Set(els...)
 		for _, id := range extras {
 			_ = d.RemoveId(id)
+		}
+	case modeGhost:
+		els := make([]ldiff.Element, 0, len(ids))
+		for _, id := range ids {
+			els = append(els, ldiff.Element{Id: id, Head: contents[id]})
+		}
+		d.Set(els...)
+		k := 0
+		for _, id := range append(append([]string{}, uni...), "ghost-1", "ghost-2", "ghost-3", "ghost-4", "ghost-5", "ghost-6") {
+			if _, ok := contents[id]; ok || k >= len(ids) {
+				continue
+			}
+			_ = d.RemoveId(id)
+			k++
 		}
 	case modeChurn:
 		inTriple := map[string]bool{}
@@ -670,7 +687,7 @@ func TestCheck(t *testing.T) {
 		Level: "exploration",
 		Rule: "exhaustive enumeration of all 3^6 x 3^6 ordered pairs of element sets over a 6-id forced-collision universe " +
 			"(3 ids sharing a 36-bit xxhash prefix, 2 sharing 51 bits, 1 unrelated; each id absent / head h1 / head h2 per side) " +
-			"x (divideFactor, compareThreshold) grid x index build history (fresh, insert-then-update, insert-extra-then-remove, churn = insert-remove-then-insert) " +
+			"x (divideFactor, compareThreshold) grid x index build history (fresh, insert-then-update, insert-extra-then-remove, churn = insert-remove-then-insert, ghost = fresh + RemoveId of ids never held) " +
 			"x transport (in process, headsync.NewRemoteDiff->DiffManager.HandleRangeRequest, keyvalue.NewRemoteDiff->HandleRangeRequest, " +
 			"both with MarshalVT/UnmarshalVT of request and response) x {Diff, CompareDiff}, plus fixed large cases; " +
 			"evaluations = diff runs compared with the set-theoretic reference; distinct_nontrivial = distinct non-empty outcomes " +
@@ -715,25 +732,25 @@ func gridParams(c *vk.Ctx) (full []param) {
 // jobsFor lists what is enumerated for one parameter pair: (left history, right history, transport, stride);
 // stride 0 = all 531441 pairs, stride n = the deterministic subset inSubset(l, r, n).
 func jobsFor(c *vk.Ctx, p param) (jobs []job) {
-	F, U, R, C := modeFresh, modeUpdate, modeRemove, modeChurn
+	F, U, R, C, G := modeFresh, modeUpdate, modeRemove, modeChurn, modeGhost
 	if c.Quick() {
 		switch p {
 		case param{2, 1}: // the expensive one (up to 54 rounds per diff)
 			return []job{{F, F, trInproc, 0}, {U, R, trInproc, 9}, {R, U, trInproc, 9},
-				{F, F, trHs, 27}, {F, F, trKv, 27}, {U, R, trHs, 27}, {R, U, trKv, 27}, {C, F, trInproc, 9}, {R, C, trHs, 27}}
+				{F, F, trHs, 27}, {F, F, trKv, 27}, {U, R, trHs, 27}, {R, U, trKv, 27}, {C, F, trInproc, 9}, {R, C, trHs, 27}, {G, F, trInproc, 9}, {F, G, trKv, 27}}
 		case param{16, 4}:
 			return []job{{F, F, trInproc, 0}, {U, R, trInproc, 3}, {R, U, trInproc, 3},
-				{F, F, trHs, 9}, {F, F, trKv, 9}, {U, R, trHs, 9}, {R, U, trKv, 9}, {C, F, trInproc, 3}, {F, C, trKv, 9}}
+				{F, F, trHs, 9}, {F, F, trKv, 9}, {U, R, trHs, 9}, {R, U, trKv, 9}, {C, F, trInproc, 3}, {F, C, trKv, 9}, {G, F, trInproc, 3}, {F, G, trHs, 9}}
 		case param{3, 2}:
-			return []job{{F, F, trInproc, 0}, {U, U, trInproc, 9}, {R, R, trInproc, 9}, {U, F, trHs, 27}, {F, R, trKv, 27}, {C, C, trInproc, 9}, {C, U, trHs, 27}}
+			return []job{{F, F, trInproc, 0}, {U, U, trInproc, 9}, {R, R, trInproc, 9}, {U, F, trHs, 27}, {F, R, trKv, 27}, {C, C, trInproc, 9}, {C, U, trHs, 27}, {G, G, trInproc, 9}, {U, G, trKv, 27}}
 		default: // (0,0) behaves as (2,1): only the clamping is of interest
-			return []job{{F, F, trInproc, 9}, {U, R, trInproc, 27}, {F, F, trHs, 81}, {F, F, trKv, 81}, {C, F, trInproc, 27}}
+			return []job{{F, F, trInproc, 9}, {U, R, trInproc, 27}, {F, F, trHs, 81}, {F, F, trKv, 81}, {C, F, trInproc, 27}, {G, F, trInproc, 27}}
 		}
 	}
 	if p.Df == 0 || p.Thr == 0 {
 		// a clamped value behaves as its clamp target (which is enumerated in full): three history combinations in
 		// process and both wire adapters, all pairs
-		return []job{{F, F, trInproc, 0}, {U, R, trInproc, 0}, {R, U, trInproc, 0}, {F, F, trHs, 0}, {F, F, trKv, 0}, {C, F, trInproc, 0}}
+		return []job{{F, F, trInproc, 0}, {U, R, trInproc, 0}, {R, U, trInproc, 0}, {F, F, trHs, 0}, {F, F, trKv, 0}, {C, F, trInproc, 0}, {G, F, trInproc, 0}, {F, G, trInproc, 0}}
 	}
 	for lm := 0; lm < nModes; lm++ {
 		for rm := 0; rm < nModes; rm++ {
@@ -741,7 +758,7 @@ func jobsFor(c *vk.Ctx, p param) (jobs []job) {
 		}
 	}
 	for _, tr := range []int{trHs, trKv} {
-		jobs = append(jobs, job{F, F, tr, 0}, job{U, R, tr, 0}, job{R, U, tr, 0}, job{C, F, tr, 0})
+		jobs = append(jobs, job{F, F, tr, 0}, job{U, R, tr, 0}, job{R, U, tr, 0}, job{C, F, tr, 0}, job{F, G, tr, 0})
 	}
 	return
 }
